@@ -1,0 +1,145 @@
+//go:build verif
+
+// Contracts for package parser, checked by /verif/engine (gvc).  This file
+// contains comments only; it is compiled only with the "verif" build tag.
+package parser
+
+//@ pred inv(p *Parser) = p != nil && p.r != nil && 0 <= p.pos && p.pos <= p.used && p.used <= len(p.buf)
+//@      && (len(p.buf) == 0 || len(p.buf) == 1024) && p.from >= 0 && fsize(p.r) >= 0 && fsize(p.r) <= 9223372036854775807
+//@      && rpos(p.r) == p.from + p.used && (p.used > 0 ==> p.from + p.used <= fsize(p.r))
+//@      && (forall i int :: 0 <= i && i < p.used ==> p.buf[i] == file(p.r)[p.from + i])
+//@ spec vpos(p *Parser) int = p.from + p.pos
+
+//@ assume func (r ReadSeekSizer) Size() (n int64)
+//@   ensures n == fsize(r)
+//@   modifies nothing
+
+//@ func (p *Parser) Size() (n int64)   props: C17
+//@   requires inv(p)
+//@   ensures n == fsize(p.r)
+//@   modifies nothing
+
+//@ func (p *Parser) Pos() (n int64)   props: C17
+//@   requires inv(p)
+//@   ensures n == vpos(p)
+//@   modifies nothing
+
+//@ func (p *Parser) SeekPos(filePos int64) (err error)   props: C17 C18
+//@   requires inv(p) && filePos >= 0
+//@   ensures err == nil ==> inv(p) && vpos(p) == filePos
+//@   ensures (err != nil) == (faults(p.r) > old(faults(p.r)))
+//@   ensures faults(p.r) >= old(faults(p.r))
+//@   ensures p.r == old(p.r)
+//@   ensures old(filePos >= p.from && filePos <= p.from + p.used) ==> err == nil && rpos(p.r) == old(rpos(p.r))
+//@   modifies p.from, p.pos, p.used, rpos(p.r), faults(p.r)
+
+//@ func (p *Parser) Discard(n int) (err error)   props: C17 C18
+//@   requires inv(p) && vpos(p) + n <= 9223372036854775807
+//@   panics_if n < 0
+//@   ensures err == nil ==> inv(p) && vpos(p) == old(vpos(p)) + n
+//@   ensures (err != nil) == (faults(p.r) > old(faults(p.r)))
+//@   ensures p.r == old(p.r)
+//@   modifies p.from, p.pos, p.used, rpos(p.r), faults(p.r)
+
+//@ func (p *Parser) ReadBytes(n int) (res []byte, err error)   props: C17 C18 C02
+//@   requires inv(p)
+//@   panics_if n > 1024
+//@   let m = max(n, 0); c0 = old(vpos(p)); nofault = faults(p.r) == old(faults(p.r))
+//@   ensures err == nil ==> inv(p) && len(res) == m && vpos(p) == c0 + m
+//@   ensures err == nil ==> forall i int :: 0 <= i && i < m ==> res[i] == file(p.r)[c0 + i]
+//@   ensures err != nil ==> res == nil
+//@   ensures nofault && err != nil ==> inv(p) && vpos(p) == c0
+//@   ensures nofault ==> ((err != nil) == (m >= 1 && c0 + m > fsize(p.r)))
+//@   ensures nofault && err != nil ==> err == io.ErrUnexpectedEOF
+//@   ensures faults(p.r) >= old(faults(p.r)) && (err == nil ==> nofault)
+//@   ensures p.r == old(p.r)
+//@   ensures ref(p.buf) == old(ref(p.buf)) || fresh(p.buf)
+//@   modifies p.buf, p.from, p.pos, p.used, p.lastRead, p.buf[*], rpos(p.r), faults(p.r)
+//@   loop 0
+//@     invariant inv(p) && 0 <= n && n <= 1024 && vpos(p) == old(vpos(p))
+//@     invariant faults(p.r) == old(faults(p.r)) && p.r == old(p.r)
+//@     invariant ref(p.buf) == old(ref(p.buf)) || fresh(p.buf)
+//@     decreases p.pos + n - p.used
+
+//@ func New(r ReadSeekSizer) (p *Parser)   props: C17
+//@   requires r != nil && rpos(r) == 0 && fsize(r) >= 0 && fsize(r) <= 9223372036854775807
+//@   ensures inv(p) && vpos(p) == 0 && fresh(p) && p.r == r && rpos(r) == 0 && faults(r) == old(faults(r))
+//@   modifies rpos(r), faults(r)
+
+//@ func (p *Parser) ReadUint8() (v uint8, err error)   props: C17 C18
+//@   requires inv(p)
+//@   let c0 = old(vpos(p)); nofault = faults(p.r) == old(faults(p.r))
+//@   ensures err == nil ==> inv(p) && vpos(p) == c0 + 1 && v == file(p.r)[c0]
+//@   ensures nofault ==> ((err != nil) == (c0 + 1 > fsize(p.r)))
+//@   ensures nofault && err != nil ==> err == io.ErrUnexpectedEOF && inv(p) && vpos(p) == c0
+//@   ensures faults(p.r) >= old(faults(p.r)) && p.r == old(p.r) && (err == nil ==> nofault)
+//@   ensures ref(p.buf) == old(ref(p.buf)) || fresh(p.buf)
+//@   modifies p.buf, p.from, p.pos, p.used, p.lastRead, p.buf[*], rpos(p.r), faults(p.r)
+
+//@ func (p *Parser) ReadUint16() (v uint16, err error)   props: C17 C18
+//@   requires inv(p)
+//@   let c0 = old(vpos(p)); nofault = faults(p.r) == old(faults(p.r))
+//@   ensures err == nil ==> inv(p) && vpos(p) == c0 + 2 && v == be16(file(p.r), c0)
+//@   ensures nofault ==> ((err != nil) == (c0 + 2 > fsize(p.r)))
+//@   ensures nofault && err != nil ==> err == io.ErrUnexpectedEOF && inv(p) && vpos(p) == c0
+//@   ensures faults(p.r) >= old(faults(p.r)) && p.r == old(p.r) && (err == nil ==> nofault)
+//@   ensures ref(p.buf) == old(ref(p.buf)) || fresh(p.buf)
+//@   modifies p.buf, p.from, p.pos, p.used, p.lastRead, p.buf[*], rpos(p.r), faults(p.r)
+
+//@ func (p *Parser) ReadInt16() (v int16, err error)   props: C17 C18
+//@   requires inv(p)
+//@   let c0 = old(vpos(p)); nofault = faults(p.r) == old(faults(p.r))
+//@   ensures err == nil ==> inv(p) && vpos(p) == c0 + 2 && v == int16(be16(file(p.r), c0))
+//@   ensures nofault ==> ((err != nil) == (c0 + 2 > fsize(p.r)))
+//@   ensures nofault && err != nil ==> err == io.ErrUnexpectedEOF && inv(p) && vpos(p) == c0
+//@   ensures faults(p.r) >= old(faults(p.r)) && p.r == old(p.r) && (err == nil ==> nofault)
+//@   ensures ref(p.buf) == old(ref(p.buf)) || fresh(p.buf)
+//@   modifies p.buf, p.from, p.pos, p.used, p.lastRead, p.buf[*], rpos(p.r), faults(p.r)
+
+//@ func (p *Parser) ReadUint32() (v uint32, err error)   props: C17 C18
+//@   requires inv(p)
+//@   let c0 = old(vpos(p)); nofault = faults(p.r) == old(faults(p.r))
+//@   ensures err == nil ==> inv(p) && vpos(p) == c0 + 4 && v == be32(file(p.r), c0)
+//@   ensures nofault ==> ((err != nil) == (c0 + 4 > fsize(p.r)))
+//@   ensures nofault && err != nil ==> err == io.ErrUnexpectedEOF && inv(p) && vpos(p) == c0
+//@   ensures faults(p.r) >= old(faults(p.r)) && p.r == old(p.r) && (err == nil ==> nofault)
+//@   ensures ref(p.buf) == old(ref(p.buf)) || fresh(p.buf)
+//@   modifies p.buf, p.from, p.pos, p.used, p.lastRead, p.buf[*], rpos(p.r), faults(p.r)
+
+//@ func (p *Parser) ReadUint16Slice() (res []uint16, err error)   props: C17 C18
+//@   requires inv(p)
+//@   let c0 = old(vpos(p)); nofault = faults(p.r) == old(faults(p.r)); cnt = be16(file(p.r), c0)
+//@   ensures err == nil ==> inv(p) && len(res) == cnt && vpos(p) == c0 + 2 + 2*cnt
+//@   ensures err == nil ==> forall j int :: 0 <= j && j < len(res) ==> res[j] == be16(file(p.r), c0 + 2 + 2*j)
+//@   ensures err != nil ==> res == nil
+//@   ensures nofault ==> ((err != nil) == (c0 + 2 > fsize(p.r) || c0 + 2 + 2*cnt > fsize(p.r)))
+//@   ensures nofault && err != nil ==> err == io.ErrUnexpectedEOF
+//@   ensures faults(p.r) >= old(faults(p.r)) && p.r == old(p.r) && (err == nil ==> nofault)
+//@   modifies p.buf, p.from, p.pos, p.used, p.lastRead, p.buf[*], rpos(p.r), faults(p.r)
+//@   loop 0
+//@     invariant inv(p) && 0 <= iter && iter <= len(res) && len(res) == n && n == be16(file(p.r), old(vpos(p)))
+//@     invariant vpos(p) == old(vpos(p)) + 2 + 2*iter && fresh(res) && off(res) == 0 && old(vpos(p)) + 2 + 2*iter <= fsize(p.r)
+//@     invariant forall j int :: 0 <= j && j < iter ==> res[j] == be16(file(p.r), old(vpos(p)) + 2 + 2*j)
+//@     invariant faults(p.r) == old(faults(p.r)) && p.r == old(p.r)
+//@     invariant ref(p.buf) == old(ref(p.buf)) || fresh(p.buf)
+//@     decreases len(res) - iter
+
+//@ func (p *Parser) Read(buf []byte) (total int, err error)   props: C17 C18
+//@   requires inv(p) && ref(buf) != ref(p.buf)
+//@   let c0 = old(vpos(p)); nofault = faults(p.r) == old(faults(p.r)); L = len(buf)
+//@   ensures 0 <= total && total <= L
+//@   ensures err == nil ==> total == L && inv(p) && vpos(p) == c0 + L
+//@   ensures err == nil ==> forall i int :: 0 <= i && i < L ==> buf[i] == file(p.r)[c0 + i]
+//@   ensures err != nil ==> total < L
+//@   ensures nofault ==> ((err != nil) == (L >= 1 && c0 + L > fsize(p.r)))
+//@   ensures nofault && err != nil ==> err == io.ErrUnexpectedEOF
+//@   ensures faults(p.r) >= old(faults(p.r)) && p.r == old(p.r) && (err == nil ==> nofault)
+//@   modifies buf[*], p.buf, p.from, p.pos, p.used, p.lastRead, p.buf[*], rpos(p.r), faults(p.r)
+//@   loop 0
+//@     invariant inv(p) && 0 <= total && total <= len(old(buf)) && len(buf) == len(old(buf)) - total
+//@     invariant ref(buf) == ref(old(buf)) && off(buf) == off(old(buf)) + total && ref(buf) != ref(p.buf)
+//@     invariant vpos(p) == old(vpos(p)) + total && (total > 0 ==> old(vpos(p)) + total <= fsize(p.r))
+//@     invariant forall i int :: 0 <= i && i < total ==> old(buf)[i] == file(p.r)[old(vpos(p)) + i]
+//@     invariant faults(p.r) == old(faults(p.r)) && p.r == old(p.r)
+//@     invariant ref(p.buf) == old(ref(p.buf)) || fresh(p.buf)
+//@     decreases len(buf)
